@@ -353,21 +353,42 @@ Proof.
     destruct l as [|c' l]; cbn [app].
     - destruct t as [|c' t]; [contradiction|]. eauto.
     - eauto. }
-  assert (Gf : forall x (fr t : list N), t <> [] -> fr ++ t <> []).
-  { intros x fr t Ht H. apply app_eq_nil in H as [_ H]. contradiction. }
+  assert (Gf : forall (fr t : list N), t <> [] -> fr ++ t <> []).
+  { intros fr t Ht H. apply app_eq_nil in H as [_ H]. contradiction. }
   unfold format_abs.
   destruct (u <? SECOND).
   - destruct (u =? 0); [exists 48, 115, []; split; reflexivity|].
     destruct (u <? 1000); [apply G; discriminate|].
     destruct (u <? 1000000).
-    + destruct (fmt_frac 3 u false []) as [fr v]. apply G, (Gf 0). discriminate.
-    + destruct (fmt_frac 6 u false []) as [fr v]. apply G, (Gf 0). discriminate.
+    + destruct (fmt_frac 3 u false []) as [fr v]. apply G, Gf. discriminate.
+    + destruct (fmt_frac 6 u false []) as [fr v]. apply G, Gf. discriminate.
   - destruct (fmt_frac 9 u false []) as [fr v].
     destruct (0 <? v / 60).
     + destruct (0 <? v / 60 / 60).
       * apply G. discriminate.
       * rewrite <- app_assoc. apply G. discriminate.
-    + apply G, (Gf 0). discriminate.
+    + apply G, Gf. discriminate.
+Qed.
+
+Lemma parse_dur_neg t c c' l u :
+  t = c :: c' :: l -> (forall fuel, pd_loop (S (S (S fuel))) 0 t = Some u) ->
+  parse_duration (45 :: t) = Some (wrap64s (- Z.of_N u)).
+Proof.
+  intros E H. unfold parse_duration.
+  change ((45 =? 45) || (45 =? 43)) with true. cbv iota. change (45 =? 45) with true.
+  assert (Hne : bytes_eqb t [48] = false) by (rewrite E; cbn; apply andb_false_r).
+  rewrite Hne. specialize (H (List.length l)). subst t. cbn [List.length]. rewrite H. reflexivity.
+Qed.
+
+Lemma parse_dur_pos t c c' l u :
+  t = c :: c' :: l -> is_digit c = true ->
+  (forall fuel, pd_loop (S (S (S fuel))) 0 t = Some u) ->
+  parse_duration t = if 2 ^ 63 - 1 <? u then None else Some (Z.of_N u).
+Proof.
+  intros E Hc H. unfold parse_duration.
+  assert (Hne : bytes_eqb t [48] = false) by (rewrite E; cbn; apply andb_false_r).
+  assert (Hs : (c =? 45) || (c =? 43) = false) by (unfold is_digit in Hc; lia).
+  specialize (H (List.length l)). subst t. rewrite Hs, Hne. cbn [List.length]. rewrite H. reflexivity.
 Qed.
 
 Lemma duration_roundtrip z :
@@ -378,25 +399,17 @@ Proof.
   destruct (z <? 0)%Z eqn:Ez.
   - set (u := Z.to_N (- z)).
     destruct (format_abs_shape u) as [c [c' [l [E Hc]]]].
-    unfold dur_unmarshal, parse_duration.
-    change ((45 =? 45) || (45 =? 43)) with true. cbv iota.
-    change (45 =? 45) with true.
-    assert (Hne : bytes_eqb (format_abs u) [48] = false).
-    { rewrite E. cbn. apply andb_false_r. }
-    rewrite Hne. rewrite E at 1. rewrite E at 1. cbn [length]. rewrite <- E.
-    rewrite format_abs_parse by (change (2 ^ 63) with 9223372036854775808; lia).
+    unfold dur_unmarshal.
+    rewrite (parse_dur_neg (format_abs u) c c' l u E)
+      by (intro; apply format_abs_parse; change (2 ^ 63) with 9223372036854775808; lia).
     f_equal. unfold wrap64s. change (2 ^ 63)%Z with 9223372036854775808%Z.
     change (2 ^ 64)%Z with 18446744073709551616%Z. lia.
   - set (u := Z.to_N z).
     destruct (format_abs_shape u) as [c [c' [l [E Hc]]]].
-    unfold dur_unmarshal. rewrite E at 1. unfold parse_duration. rewrite E at 1.
-    assert (Hs : (c =? 45) || (c =? 43) = false) by (unfold is_digit in Hc; lia).
-    rewrite Hs. rewrite <- E.
-    assert (Hne : bytes_eqb (format_abs u) [48] = false).
-    { rewrite E. cbn. apply andb_false_r. }
-    rewrite Hne. rewrite E at 1. rewrite E at 1. cbn [length]. rewrite <- E.
-    rewrite format_abs_parse by (change (2 ^ 63) with 9223372036854775808; lia).
-    change (2 ^ 63 - 1) with 9223372036854775807.
+    unfold dur_unmarshal.
+    rewrite (parse_dur_pos (format_abs u) c c' l u E Hc)
+      by (intro; apply format_abs_parse; change (2 ^ 63) with 9223372036854775808; lia).
+    rewrite E. change (2 ^ 63 - 1) with 9223372036854775807.
     destruct (9223372036854775807 <? u) eqn:E1; [lia|]. f_equal. lia.
 Qed.
 
